@@ -39,6 +39,26 @@ def path_with_close(K, T_max, D_max, max_loss):
     return path
 
 
+def path_close_after_handle(K, S_max, max_loss):
+    """close() lands right after the S-th handle the loop runs (S = 1..S_max): between any two callbacks, timers or task steps"""
+    def path(eng, ctx):
+        r = M.run_manager(eng, K, T_max=None, max_loss=max_loss, S_max=S_max)
+        w = M.witness(r, K)
+        ctx.witness, ctx.obs = w, M.obs_of(r["trace"])
+        ctx.nontrivial()
+        if r["loop"].errors:
+            ctx.violation(f"exception in a callback/task: {r['loop'].errors[0].get('message')} {r['loop'].errors[0].get('exception')!r}", w)
+            return
+        closed = any(e[0] == "close" for e in r["trace"])
+        ctx.reach("closed" if closed else "cut-before-close")
+        res = CT.analyse_c17(r["trace"], r["quiescent"], same(eng), sum(1 for t in r["transports"] if t.closed), len(r["transports"]))
+        if res:
+            ctx.violation(f"{res[0][0]}: {res[0][1]}", w)
+        else:
+            ctx.check(True, "trace assertions", w)
+    return path
+
+
 def path_no_close(K, max_loss):
     def path(eng, ctx):
         r = M.run_manager(eng, K, T_max=None, max_loss=max_loss)
@@ -64,6 +84,9 @@ def scenarios(tier):
     return [Scenario(f"close() anywhere: <= {K} attempts, <= {losses} loss(es)", path_with_close(K, 2 * (10 if q else 16), 4 if q else 6, losses),
                      bounds={"attempts": K, "losses": losses, "latency_s": "0..2", "lifetime_s": "0..2", "close_instant": f"any half-second in 0..{10 if q else 16} s, then 0..{4 if q else 6} further loop iterations at that instant",
                              "outcomes": "succeed/fail per attempt, free"}, domains=("mc",), frontier=5, assumptions=A, replay_cap=120, must_reach=("assert", "closed")),
+            Scenario(f"close() right after the S-th handle of the run: <= {K - 1} attempts, <= 1 loss", path_close_after_handle(K - 1, 60 if q else 110, 1),
+                     bounds={"attempts": K - 1, "losses": 1, "close_position": f"after handle 1..{60 if q else 110} (every callback/timer/task step boundary)", "latency_s": "0..2", "lifetime_s": "0..2"},
+                     domains=("mc",), frontier=4, assumptions=A, replay_cap=150, must_reach=("assert", "closed")),
             Scenario(f"never closed: <= {K + 1} attempts, <= {losses + 1} losses", path_no_close(K + 1, losses + 1),
                      bounds={"attempts": K + 1, "losses": losses + 1, "latency_s": "0..2", "lifetime_s": "0..2"}, domains=("mc",), frontier=5, assumptions=A, replay_cap=120)]
 
